@@ -753,7 +753,7 @@ func applyImpl(tree *generic.PathNode, o op, cfg config, cleared map[string][]in
 	if at == nil {
 		return false, nil, true
 	}
-	node := func(v *tbin.Val) generic.Node { return generic.NewNode(thrift.Type(v.T), tbin.Bytes(tbin.Clone(v))) }
+	node := typedNode
 	switch o.Kind {
 	case "fill":
 		for i := 0; i < o.N && err == nil; i++ {
@@ -789,6 +789,51 @@ func applyImpl(tree *generic.PathNode, o op, cfg config, cleared map[string][]in
 		exist = true
 	}
 	return
+}
+
+// typedNode builds the node of a value the way an application assembles one: containers with children through
+// generic.NewTypedNode (children built the same way), everything else from its encoding. The node is stored in the
+// tree and must stay what it is while the tree is used (marshalled) later.
+func typedNode(v *tbin.Val) generic.Node {
+	raw := func() generic.Node { return generic.NewNode(thrift.Type(v.T), tbin.Bytes(tbin.Clone(v))) }
+	var ch []generic.PathNode
+	switch v.T {
+	case tbin.LIST, tbin.SET:
+		for i, e := range v.L {
+			ch = append(ch, generic.PathNode{Path: generic.NewPathIndex(i), Node: typedNode(e)})
+		}
+		if len(ch) == 0 {
+			return raw()
+		}
+		return generic.NewTypedNode(thrift.Type(v.T), thrift.Type(v.ET), 0, ch...)
+	case tbin.MAP:
+		for i, e := range v.L {
+			k := v.K[i]
+			var p generic.Path
+			switch k.T {
+			case tbin.STRING:
+				p = generic.NewPathStrKey(string(k.S))
+			case tbin.BYTE, tbin.I16, tbin.I32, tbin.I64:
+				p = generic.NewPathIntKey(int(k.I))
+			default:
+				return raw()
+			}
+			ch = append(ch, generic.PathNode{Path: p, Node: typedNode(e)})
+		}
+		if len(ch) == 0 {
+			return raw()
+		}
+		return generic.NewTypedNode(thrift.MAP, thrift.Type(v.ET), thrift.Type(v.KT), ch...)
+	case tbin.STRUCT:
+		for _, f := range v.Fs {
+			ch = append(ch, generic.PathNode{Path: generic.NewPathFieldId(thrift.FieldID(f.ID)), Node: typedNode(f.V)})
+		}
+		if len(ch) == 0 {
+			return raw()
+		}
+		return generic.NewTypedNode(thrift.STRUCT, 0, 0, ch...)
+	}
+	return raw()
 }
 
 // ---- the search ----
